@@ -4,6 +4,7 @@ import (
 	"bytes"
 	"fmt"
 	"net"
+	"os"
 	"sort"
 	"strings"
 	"time"
@@ -371,6 +372,53 @@ func (w *mediaWorld) installProbes() {
 			w.inNACK[t]--
 		}
 	})
+	// Lost updates of the per-receiver layer word: every user loads the
+	// word, changes a field and stores it back, without a lock.  A store
+	// of a word computed from a load that another task's store has
+	// overtaken loses that task's update.  Reported where it happens, so
+	// that its consequences do not surface under other check ids.
+	type lwStore struct {
+		task  string
+		stamp int64
+		word  uint32
+	}
+	lwLoadAt := map[*rtpconn.VerifDownTrack]map[string]int64{} // when each task last learnt the word (load, or own store)
+	lwLast := map[*rtpconn.VerifDownTrack]lwStore{}            // the latest store
+	r.Probe("rtpconn.(*rtpDownTrack).getLayerInfo", func(enter bool, args []any) {
+		dt, _ := args[0].(*rtpconn.VerifDownTrack)
+		if enter || dt == nil || w.byTrk[dt] == nil {
+			return
+		}
+		if lwLoadAt[dt] == nil {
+			lwLoadAt[dt] = map[string]int64{}
+		}
+		lwLoadAt[dt][simrt.CurrentTaskID()] = w.c.Stamp()
+	})
+	r.Probe("rtpconn.(*rtpDownTrack).setLayerInfo", func(enter bool, args []any) {
+		dt, _ := args[0].(*rtpconn.VerifDownTrack)
+		rs := w.byTrk[dt]
+		if enter || dt == nil || rs == nil {
+			return
+		}
+		// judged after the store: the store itself is preceded by a
+		// scheduling point
+		t := simrt.CurrentTaskID()
+		cur := dt.VerifLayerWord()
+		if lwLoadAt[dt] == nil {
+			lwLoadAt[dt] = map[string]int64{}
+		}
+		last, have := lwLast[dt]
+		if at, ok := lwLoadAt[dt][t]; ok && have && last.task != t && last.stamp > at && last.word != cur && w.check["C04"] {
+			w.c.Count("probe.layer_word_lost_update", 1)
+			w.c.Violation("C04.layer-changed-outside-forwarding", "receiver %d: lost update of the layer word: task %s (%s) stores %08x, computed from a word it loaded before task %s stored %08x; that update is lost (unsynchronised load-modify-store)", rs.idx, t, simrt.CurrentTaskName(), cur, last.task, last.word)
+		}
+		now := w.c.Stamp()
+		if os.Getenv("VERIF_C04_DEBUG") != "" {
+			fmt.Fprintf(os.Stderr, "C04 stamp=%d store %08x by %s (%s) loadedAt=%d last=%+v\n", now, cur, t, simrt.CurrentTaskName(), lwLoadAt[dt][t], last)
+		}
+		lwLast[dt] = lwStore{t, now, cur}
+		lwLoadAt[dt][t] = now
+	})
 	r.Probe("rtpconn.sendSequence", func(enter bool, args []any) {
 		t := simrt.CurrentTaskID()
 		if enter {
@@ -664,7 +712,7 @@ func (w *mediaWorld) judge(rs *recvState, pr *presentation, after rtpconn.VerifL
 			return
 		}
 		if forwarded && inOrder && !first && !pr.fromNACK && (src.Tid > after.Tid || src.Sid > after.Sid) {
-			c.Violation("C04.above-layer-forwarded", "receiver %d: in-order source seqno %d (tid=%d sid=%d) forwarded although the current layer is tid=%d sid=%d (stream started at seqno %d); recent presentations: %v", rs.idx, src.Seq, src.Tid, src.Sid, after.Tid, after.Sid, w.p.Stream.StartSeq, rs.hist)
+			c.Violation("C04.above-layer-forwarded", "receiver %d: in-order source seqno %d (tid=%d sid=%d) forwarded although the current layer is tid=%d sid=%d (stream started at seqno %d; layer word before the call %+v, after %+v); recent presentations: %v", rs.idx, src.Seq, src.Tid, src.Sid, after.Tid, after.Sid, w.p.Stream.StartSeq, pr.before, after, rs.hist)
 			return
 		}
 		if rs.limitSince > 0 && pr.enterSeq > rs.limitSince && !pr.fromNACK {
@@ -672,7 +720,7 @@ func (w *mediaWorld) judge(rs *recvState, pr *presentation, after rtpconn.VerifL
 				rs.limitKeySeen = true
 			}
 			if rs.limitKeySeen && forwarded && src.Sid > 0 && inOrder {
-				c.Violation("C04.video-low", "receiver %d asked for low quality; source seqno %d with sid=%d forwarded after a keyframe", rs.idx, src.Seq, src.Sid)
+				c.Violation("C04.video-low", "receiver %d asked for low quality; source seqno %d with sid=%d forwarded after a keyframe (layer word before the call %+v, after %+v); recent presentations: %v", rs.idx, src.Seq, src.Sid, pr.before, after, rs.hist)
 				return
 			}
 		}
